@@ -32,7 +32,7 @@ def regen(ctx, kernel):
     return tr, defs
 
 
-def regen_ast(ctx, kernel, what):
+def regen_ast(ctx, kernel, what, optional=False):
     """Regenerate coq/gen/Gen_<kernel>.v with an AST translator (translator/gen_<kernel>.py: generate(out, repo) ->
     (info, names)) and build it.  A translator that refuses the source, or a generated file that does not compile,
     is a broken proof obligation.  Returns (info, names) or (None, None)."""
@@ -42,6 +42,18 @@ def regen_ast(ctx, kernel, what):
         with common.time_limit(120):
             info, names = mod.generate(out, common.REPO)
     except Exception as e:
+        if optional and type(e).__name__ == "Unsupported":
+            # the translator refuses a construct outside its subset: no model of the current source exists, so no
+            # theorem about one is claimed; the stale file is removed and the caller falls back on its other tie
+            for ext in (".v", ".vo", ".vok", ".vos", ".glob"):
+                try:
+                    os.remove(out[:-2] + ext)
+                except OSError:
+                    pass
+            ctx.extra["source_tie_" + kernel] = "unavailable on this run: translator refused the source (%s)" % e
+            ctx.assumptions.append("SOURCE TIE UNAVAILABLE: translator/gen_%s.py refused the current source (%s); the theorems of the "
+                                   "*_source.v file are NOT claimed on this run, the tie is the correspondence run of the hand model only" % (kernel, e))
+            return None, None
         ctx.proof_failures.append({"theorem": "(translator: Gen_%s.v could not be regenerated from source)" % kernel,
                                    "error": "%s: %s" % (type(e).__name__, e), "trace": traceback.format_exc()[-800:]})
         return None, None
